@@ -178,7 +178,7 @@ Proof. destruct b as [[bx by_] bz]. unfold v3_dist2, v3_grad, v3norm2, v3dot, v3
 Definition is_unit (v : vec3 (T := R)) : Prop := v3norm2 Rops v = 1.
 
 Lemma uv_nonneg a b : 0 <= uv_dist2 Rops a b.
-Proof. unfold uv_dist2. cbn -[v3dot]. apply sq_nonneg. Qed.
+Proof. unfold uv_dist2. cbn -[v3dot clamp1]. apply sq_nonneg. Qed.
 Lemma v3dot_sym (a b : vec3 (T := R)) : v3dot Rops a b = v3dot Rops b a.
 Proof. destruct a as [[ax ay] az], b as [[bx by_] bz]. unfold v3dot; cbn. ring. Qed.
 Lemma uv_sym a b : uv_dist2 Rops a b = uv_dist2 Rops b a.
@@ -192,10 +192,17 @@ Proof.
   split; lra.
 Qed.
 
+Lemma clamp1_id c : -1 <= c <= 1 -> clamp1 Rops c = c.
+Proof.
+  intros Hc. unfold clamp1; cbn.
+  replace (Rltb 1 c) with false by (symmetry; apply Rltb_false; lra).
+  replace (Rltb c (- (1))) with false by (symmetry; apply Rltb_false; lra). reflexivity.
+Qed.
+
 Lemma uv_zero_iff a b : is_unit a -> is_unit b -> (uv_dist2 Rops a b = 0 <-> a = b).
 Proof.
   intros Ha Hb. pose proof (unit_dot_bound a b Ha Hb) as Hc.
-  unfold uv_dist2. cbn -[v3dot]. split.
+  unfold uv_dist2. rewrite clamp1_id by lra. cbn -[v3dot]. split.
   - intros H. assert (H0 : acos (v3dot Rops a b) = 0) by (apply sq_zero; exact H).
     assert (Hd : v3dot Rops a b = 1).
     { rewrite <- (cos_acos (v3dot Rops a b)) by lra. rewrite H0. apply cos_0. }
@@ -361,13 +368,10 @@ Qed.
 Lemma dv_dist2_nopbc x1 x2 : dv_dist2 Rops false None x1 x2 = v3_dist2 Rops x1 x2.
 Proof. unfold dv_dist2. rewrite v3_sym. reflexivity. Qed.
 
-(* the gradient reported by the forceNoPBC branch is MINUS the derivative *)
-Lemma dv_lgrad_nopbc_is_minus_grad x1 x2 :
-  dv_lgrad Rops false None x1 x2 = v3scale Rops (-1) (v3_grad Rops x1 x2).
-Proof.
-  destruct x1 as [[a1 b1] c1], x2 as [[a2 b2] c2].
-  unfold dv_lgrad, v3_grad, v3scale, v3sub; cbn. f_equal; [f_equal|]; ring.
-Qed.
+(* the gradient reported by the forceNoPBC branch is the plain 3-vector gradient
+   (after the fix of distance_vec::dist2_lgrad; before it, it was minus that) *)
+Lemma dv_lgrad_nopbc x1 x2 cell : dv_lgrad Rops false cell x1 x2 = v3_grad Rops x1 x2.
+Proof. reflexivity. Qed.
 
 Lemma dv_lgrad_pbc_nocell x1 x2 : dv_lgrad Rops true None x1 x2 = v3_grad Rops x1 x2.
 Proof.
